@@ -216,6 +216,15 @@ func c07bundles(t *testing.T, rep *lib.Report) {
 						}
 						return o, err
 					}, history, shape)
+					// the keys-only ("minimal") variant used by squash: same bundles, descriptors not fetched
+					c07check(rep, "bundles-minimal", history, ids, ids, countPrefix(w.Meta, "bundles/a/"), func(page, conc int) ([]string, error) {
+						bs, err := core.ListBundles("a", st, append(listOpts(page, conc), core.WithMinimalBundle(true))...)
+						var o []string
+						for _, b := range bs {
+							o = append(o, b.ID)
+						}
+						return o, err
+					}, history, shape)
 					c07check(rep, "bundles-apply", history, ids, ids, countPrefix(w.Meta, "bundles/a/"), func(page, conc int) ([]string, error) {
 						var o []string
 						err := core.ListBundlesApply("a", st, func(b model.BundleDescriptor) error { o = append(o, b.ID); return nil }, listOpts(page, conc)...)
@@ -418,7 +427,7 @@ func c07diamonds(t *testing.T, rep *lib.Report) {
 func TestC07(t *testing.T) {
 	rep := lib.NewReport("C07", "model_checking")
 	defer rep.Finish(t)
-	rep.Rule = "histories built with the real operations inside a fake-clock bubble (+ injected index-file keys): repos = all subsets of {a,ab,a-b,b}; 0..5 bundles with an interrupted upload at every position, 4 label sets x 3 prefix filters; 0..3 diamonds x 0..3 splits (running/done, user-supplied IDs) x {0,1,3} index files x 1..2 generations, diamond states initialized/done/canceled; every list function (and its Apply variant) with EVERY page size 1..K+1 (K = keys under the scanned prefix) and 1024, concurrency {1,2,32}; oracle: multiset = existing objects (complete / exactly once / nothing else), sequence identical for every page size, sequence = documented order; plus every listing function (page size 2) under every single transient fault at each of its metadata calls (fail before / hang then fail): either an error or exactly the existing objects; distinct = distinct histories"
+	rep.Rule = "histories built with the real operations inside a fake-clock bubble (+ injected index-file keys): repos = all subsets of {a,ab,a-b,b}; 0..5 bundles with an interrupted upload at every position, 4 label sets x 3 prefix filters; 0..3 diamonds x 0..3 splits (running/done, user-supplied IDs) x {0,1,3} index files x 1..2 generations, diamond states initialized/done/canceled; every list function (and its Apply variant; bundles also in the keys-only mode squash uses) with EVERY page size 1..K+1 (K = keys under the scanned prefix) and 1024, concurrency {1,2,32}; oracle: multiset = existing objects (complete / exactly once / nothing else), sequence identical for every page size, sequence = documented order; plus every listing function (page size 2) under every single transient fault at each of its metadata calls (fail before / hang then fail): either an error or exactly the existing objects; distinct = distinct histories"
 	_ = context2.New
 	c07repos(t, rep)
 	c07bundles(t, rep)
